@@ -59,6 +59,7 @@ func setupMiner(w *world.World) *minerWorld {
 	chain.SetupX2SRequestors()
 	chain.SetupLFBTicketSender()
 	mc := miner.GetMinerChain()
+	w.Chain.VerifStartBlockFetchWorker(w.Ctx) // as Chain.SetupWorkers does; every fetch finds no active node
 	mc.SetGenerationTimeout(15)
 	mc.SetRetryWaitTime(5)
 	gr, ok := w.GenesisRound.(*round.Round)
